@@ -393,6 +393,7 @@ def check(run):
     r5_accumulate(run, F, D)
     r6_digit_evidence(run, F, D)
     r7_digit_tables(run, F)
+    r8_suffix_start(run, F, D)
     # the first generation's counterpart of R6-DIGIT-EVIDENCE: `0x` / `0b` without a digit is E141 for both lexers
     from props import c09
     c09.r9_radix_needs_digit(run, F, A)
@@ -407,6 +408,57 @@ DIGIT_FNS = {
     "delta::lexer::digits::parse_hex_digit":      (16, 4),   # 0x literal, \\x in char, \\x in string, \\u{..}
     "delta::lexer::digits::parse_decimal_digit":  (10, 2),   # first digit, following digits
 }
+
+
+def r8_suffix_start(run, F, D):
+    """The type suffix of an integer literal is what follows the *whole* run of digits and `_` separators (`40_i32` is 40 with
+    suffix `i32` for both lexers).  In each digit arm of the scanner the local handed to `span_from` (the start of the suffix)
+    is only ever set to the current end of the token, and never inside a scanning loop whose `_` branch does not set it too --
+    otherwise separators after the last digit would be read as part of the suffix (E141)."""
+    b = D.body
+    n = 0
+    for label, arm in sorted(D.digit_arms.items()):
+        sf = [c for c in hirq.calls(arm["body"]) if c.get("k") == "MethodCall" and c.get("name") == "span_from"]
+        run.require(len(sf) >= 1, "digit arm %s: no span_from call" % label)
+        lids = set()
+        for c in sf:
+            a = hirq.unwrap_trivial(c["a"][0]) if c.get("a") else {}
+            if a.get("k") == "Path" and a.get("rk") == "Local":
+                lids.add(a["lid"])
+        run.require(len(lids) == 1, "digit arm %s: the argument of span_from is not one local (%s)" % (label, lids))
+        lid = list(lids)[0]
+        # every definition is `<location>.end`
+        defs = []
+        for x in walk(arm["body"]):
+            if x.get("k") == "Let" and hirq.strip_ref(x["pat"]).get("lid") == lid and isinstance(x.get("init"), dict):
+                defs.append((x, x["init"]))
+            elif x.get("k") == "Assign" and hirq.unwrap_trivial(x["lhs"]).get("lid") == lid:
+                defs.append((x, x["rhs"]))
+        run.require(defs, "digit arm %s: no definition of the suffix start" % label)
+        for d, rhs in defs:
+            r = hirq.unwrap_trivial(rhs)
+            ok = r.get("k") == "Field" and r.get("name") == "end"
+            n += 1
+            run.ob("R8-SUFFIX-START", "%s arm: definition %d is the current end of the token" % (label, defs.index((d, rhs))), ok, F.where(b, d),
+                   "the start of the suffix is set to `location.end`, nothing computed")
+        # loops with a `_` separator branch
+        for lp in [x for x in walk(arm["body"]) if x.get("k") == "Loop"]:
+            under = []
+            for x in walk(lp):
+                if x.get("k") == "If":
+                    c = hirq.unwrap_trivial(x["cond"])
+                    if c.get("k") == "Binary" and c.get("op") == "Eq" and lexq.char_lits(c) == [95]:
+                        under.append(x["then"])
+            if not under:
+                continue
+            inside = [d for d, _ in defs if any(y is d for y in walk(lp))]
+            sep_sets = all(any(y is d for d in inside for y in walk(u)) for u in under)
+            n += 1
+            run.ob("R8-SUFFIX-START", "%s arm: loop at line order %d" % (label, [id(x) for x in walk(arm["body"]) if x.get("k") == "Loop"].index(id(lp))),
+                   (not inside) or sep_sets, F.where(b, inside[0] if inside else lp),
+                   "inside the loop that consumes digits and `_` separators the start of the suffix is set in a digit branch but not in the `_` branch: "
+                   "`40_i32` would have the suffix `_i32` (E141) while the first generation reads 40i32")
+    run.floor("R8-SUFFIX-START", 6, "definitions and scanning loops in the two digit arms")
 
 
 def r7_digit_tables(run, F):
